@@ -55,6 +55,10 @@ pub struct Agg {
     pub samples: Vec<serde_json::Value>,
     pub machinery_errors: Vec<String>,
     pub max_depth: usize,
+    /// per job tag: (programs, executions)
+    pub per_tag: std::collections::BTreeMap<String, (u64, u64)>,
+    /// (executions, bound, program) of the most expensive explorations
+    pub heaviest: Vec<(u64, usize, String)>,
 }
 
 pub fn trace_hash(t: &Trace) -> u64 {
@@ -107,18 +111,14 @@ impl RunCfg {
     }
 }
 
-fn explore_one(job: &Job, bound: usize, oracle: OracleFn, interest: InterestFn, rc: &RunCfg) -> (rt::ExploreOut, Acc) {
-    let acc = Arc::new(Mutex::new(Acc { states: HashSet::new(), interesting: HashSet::new(), interesting_execs: 0, rejected: false }));
-    let p = Arc::new(job.program.clone());
-    configure_world(&p);
-    let acc2 = acc.clone();
-    let body: Arc<dyn Fn() + Send + Sync> = Arc::new(move || match run_program(&p) {
+fn make_body(p: Arc<Program>, oracle: OracleFn, interest: InterestFn, acc: Arc<Mutex<Acc>>) -> Arc<dyn Fn() + Send + Sync> {
+    Arc::new(move || match run_program(&p) {
         Ok(t) => {
             for (class, msg) in oracle(&p, &t) {
                 rt::violation(&class, msg);
             }
             let h = trace_hash(&t);
-            let mut a = acc2.lock().unwrap();
+            let mut a = acc.lock().unwrap();
             a.states.insert(h);
             if interest(&p, &t) {
                 a.interesting.insert(h);
@@ -126,24 +126,22 @@ fn explore_one(job: &Job, bound: usize, oracle: OracleFn, interest: InterestFn, 
             }
         }
         Err(_) => {
-            acc2.lock().unwrap().rejected = true;
+            acc.lock().unwrap().rejected = true;
         }
-    });
-    let out = rt::explore(
-        rt::ExploreCfg {
-            bound,
-            max_executions: rc.max_exec_per_job,
-            deadline: Some(rc.deadline),
-            max_violations: rc.max_violations_per_job,
-            ..Default::default()
-        },
-        body,
-    );
-    let a = std::mem::replace(
-        &mut *acc.lock().unwrap(),
-        Acc { states: HashSet::new(), interesting: HashSet::new(), interesting_execs: 0, rejected: false },
-    );
-    (out, a)
+    })
+}
+
+fn new_acc() -> Acc {
+    Acc { states: HashSet::new(), interesting: HashSet::new(), interesting_execs: 0, rejected: false }
+}
+
+/// per-thread cursor over the shared job queue
+struct Cursor {
+    job: Option<usize>,
+    bound_ix: usize,
+    local_states: HashSet<u64>,
+    local_int: HashSet<u64>,
+    violated: bool,
 }
 
 pub fn run_jobs(jobs: Vec<Job>, oracle: OracleFn, interest: InterestFn, rc: RunCfg) -> Agg {
@@ -158,80 +156,146 @@ pub fn run_jobs(jobs: Vec<Job>, oracle: OracleFn, interest: InterestFn, rc: RunC
         hs.push(
             std::thread::Builder::new()
                 .stack_size(16 << 20)
-                .spawn(move || loop {
-                    let i = next.fetch_add(1, Ordering::SeqCst);
-                    if i >= jobs.len() {
-                        break;
-                    }
-                    let job = &jobs[i];
-                    if stop.load(Ordering::SeqCst) || Instant::now() >= rc.deadline {
-                        agg.lock().unwrap().incomplete.push(format!("not started (time cap): {}", job.program.short()));
-                        continue;
-                    }
-                    let mut local_states = HashSet::new();
-                    let mut local_int = HashSet::new();
-                    let mut violated = false;
-                    for &b in &job.bounds {
-                        let (out, acc) = explore_one(job, b, oracle, interest, &rc);
-                        let mut a = agg.lock().unwrap();
-                        a.executions += out.executions;
-                        a.steps += out.steps;
-                        a.points += out.points;
-                        a.select_ties += out.select_ties;
-                        a.interesting_execs += acc.interesting_execs;
-                        a.max_depth = a.max_depth.max(out.max_depth);
-                        for k in 0..6 {
-                            a.preempt_hist[k] += out.preempt_hist[k];
-                        }
-                        if acc.rejected {
-                            a.builder_rejected += 1;
-                        }
-                        local_states.extend(acc.states);
-                        local_int.extend(acc.interesting);
-                        if let Some(nd) = &out.nondeterminism {
-                            a.machinery_errors.push(format!("{} :: {}", job.program.short(), nd));
-                        }
-                        if out.complete {
-                            *a.completed_at.entry(b).or_insert(0) += 1;
-                        } else if out.violations.is_empty() {
-                            a.incomplete.push(format!("bound {} {}: {}", b, out.cap.clone().unwrap_or_default(), job.program.short()));
-                        }
-                        if !out.violations.is_empty() {
-                            violated = true;
-                            for v in out.violations {
-                                a.violations.push(FoundViolation {
-                                    class: v.kind,
-                                    msg: v.msg,
-                                    program: job.program.clone(),
-                                    bound: v.bound,
-                                    choices: v.choices,
-                                    tag: job.tag.clone(),
-                                });
+                .spawn(move || {
+                    let cur = std::rc::Rc::new(std::cell::RefCell::new(Cursor {
+                        job: None,
+                        bound_ix: 0,
+                        local_states: HashSet::new(),
+                        local_int: HashSet::new(),
+                        violated: false,
+                    }));
+                    let acc = Arc::new(Mutex::new(new_acc()));
+                    // finish the bookkeeping of the job the cursor points at
+                    let close_job = {
+                        let (jobs, agg, rc, stop) = (jobs.clone(), agg.clone(), rc.clone(), stop.clone());
+                        move |c: &mut Cursor| {
+                            if let Some(i) = c.job.take() {
+                                let job = &jobs[i];
+                                let mut a = agg.lock().unwrap();
+                                a.programs += 1;
+                                a.per_tag.entry(job.tag.clone()).or_insert((0, 0)).0 += 1;
+                                if c.violated {
+                                    a.violating_programs += 1;
+                                    if rc.stop_on_first {
+                                        stop.store(true, Ordering::SeqCst);
+                                    }
+                                }
+                                let mut ph = DefaultHasher::new();
+                                job.program.hash(&mut ph);
+                                let ph = ph.finish().rotate_left(17);
+                                a.states.extend(c.local_states.iter().map(|s| s ^ ph));
+                                a.interesting.extend(c.local_int.iter().map(|s| s ^ ph));
+                                if a.samples.len() < 6 && (i % 97 == 0 || a.samples.is_empty()) {
+                                    a.samples.push(serde_json::json!({
+                                        "program": job.program.short(),
+                                        "bounds": job.bounds,
+                                        "distinct_outcomes": c.local_states.len(),
+                                    }));
+                                }
+                                c.local_states.clear();
+                                c.local_int.clear();
+                                c.violated = false;
+                                c.bound_ix = 0;
                             }
-                            break;
                         }
-                    }
-                    let mut a = agg.lock().unwrap();
-                    a.programs += 1;
-                    if violated {
-                        a.violating_programs += 1;
-                        if rc.stop_on_first {
-                            stop.store(true, Ordering::SeqCst);
+                    };
+                    let source = {
+                        let (jobs, next, agg, rc, stop, cur, acc) = (jobs.clone(), next.clone(), agg.clone(), rc.clone(), stop.clone(), cur.clone(), acc.clone());
+                        let mut close_job = close_job.clone();
+                        move || -> Option<rt::sched::StreamJob> {
+                            let mut c = cur.borrow_mut();
+                            loop {
+                                if let Some(i) = c.job {
+                                    let job = &jobs[i];
+                                    if !c.violated && c.bound_ix < job.bounds.len() {
+                                        let b = job.bounds[c.bound_ix];
+                                        c.bound_ix += 1;
+                                        let p = Arc::new(job.program.clone());
+                                        configure_world(&p);
+                                        *acc.lock().unwrap() = new_acc();
+                                        return Some(rt::sched::StreamJob {
+                                            cfg: rt::ExploreCfg {
+                                                bound: b,
+                                                max_executions: rc.max_exec_per_job,
+                                                deadline: Some(rc.deadline),
+                                                max_violations: rc.max_violations_per_job,
+                                                ..Default::default()
+                                            },
+                                            fixed: None,
+                                            body: make_body(p, oracle, interest, acc.clone()),
+                                        });
+                                    }
+                                    close_job(&mut c);
+                                }
+                                let i = next.fetch_add(1, Ordering::SeqCst);
+                                if i >= jobs.len() {
+                                    return None;
+                                }
+                                if stop.load(Ordering::SeqCst) || Instant::now() >= rc.deadline {
+                                    agg.lock().unwrap().incomplete.push(format!("not started (time cap): {}", jobs[i].program.short()));
+                                    continue;
+                                }
+                                c.job = Some(i);
+                                c.bound_ix = 0;
+                            }
                         }
-                    }
-                    // states are per program: mix the program identity in
-                    let mut ph = DefaultHasher::new();
-                    job.program.hash(&mut ph);
-                    let ph = ph.finish();
-                    a.states.extend(local_states.iter().map(|s| s ^ ph.rotate_left(17)));
-                    a.interesting.extend(local_int.iter().map(|s| s ^ ph.rotate_left(17)));
-                    if a.samples.len() < 6 && (i % 97 == 0 || a.samples.is_empty()) {
-                        a.samples.push(serde_json::json!({
-                            "program": job.program.short(),
-                            "bounds": job.bounds,
-                            "distinct_outcomes": local_states.len(),
-                        }));
-                    }
+                    };
+                    let sink = {
+                        let (jobs, agg, cur, acc) = (jobs.clone(), agg.clone(), cur.clone(), acc.clone());
+                        move |out: rt::ExploreOut| {
+                            let mut c = cur.borrow_mut();
+                            let i = match c.job {
+                                Some(i) => i,
+                                None => return,
+                            };
+                            let job = &jobs[i];
+                            let b = job.bounds[c.bound_ix.saturating_sub(1)];
+                            let acc = std::mem::replace(&mut *acc.lock().unwrap(), new_acc());
+                            let mut a = agg.lock().unwrap();
+                            a.executions += out.executions;
+                            a.per_tag.entry(job.tag.clone()).or_insert((0, 0)).1 += out.executions;
+                            a.heaviest.push((out.executions, b, job.program.short()));
+                            a.heaviest.sort_by(|x, y| y.0.cmp(&x.0));
+                            a.heaviest.truncate(5);
+                            a.steps += out.steps;
+                            a.points += out.points;
+                            a.select_ties += out.select_ties;
+                            a.interesting_execs += acc.interesting_execs;
+                            a.max_depth = a.max_depth.max(out.max_depth);
+                            for k in 0..6 {
+                                a.preempt_hist[k] += out.preempt_hist[k];
+                            }
+                            if acc.rejected {
+                                a.builder_rejected += 1;
+                            }
+                            c.local_states.extend(acc.states);
+                            c.local_int.extend(acc.interesting);
+                            if let Some(nd) = &out.nondeterminism {
+                                a.machinery_errors.push(format!("{} :: {}", job.program.short(), nd));
+                            }
+                            if out.complete {
+                                *a.completed_at.entry(b).or_insert(0) += 1;
+                            } else if out.violations.is_empty() {
+                                a.incomplete.push(format!("bound {} {}: {}", b, out.cap.clone().unwrap_or_default(), job.program.short()));
+                            }
+                            if !out.violations.is_empty() {
+                                c.violated = true;
+                                for v in out.violations {
+                                    a.violations.push(FoundViolation {
+                                        class: v.kind,
+                                        msg: v.msg,
+                                        program: job.program.clone(),
+                                        bound: v.bound,
+                                        choices: v.choices,
+                                        tag: job.tag.clone(),
+                                    });
+                                }
+                            }
+                        }
+                    };
+                    rt::sched::explore_stream(Box::new(source), Box::new(sink));
+                    let mut close_job = close_job;
+                    close_job(&mut cur.borrow_mut());
                 })
                 .unwrap(),
         );
@@ -272,4 +336,36 @@ pub fn replay_violation(v: &FoundViolation, oracle: OracleFn) -> (bool, Vec<Find
         found = classes;
     }
     (hashes[0] == hashes[1], found, errs)
+}
+
+/// Debug aid: run the recorded schedule once and print the trace.
+pub fn print_trace(v: &FoundViolation) {
+    let p = Arc::new(v.program.clone());
+    configure_world(&p);
+    let body: Arc<dyn Fn() + Send + Sync> = Arc::new(move || match run_program(&p) {
+        Ok(t) => {
+            let mut recs: Vec<&Rec> = t.recs.iter().collect();
+            recs.sort_by_key(|r| r.call);
+            for r in recs {
+                println!("  rec th{} #{} {:<14} call {:>3} ret {:>3} at +{}ms -> {:?}", r.th, r.idx, r.op.short(), r.call, r.ret, (r.call_ns - rt::world::E0_NS) / 1_000_000, r.res);
+            }
+            for e in &t.ledger {
+                println!("  cb  {:?} {:?} cost {} at {} expired {:?}", e.kind, e.val, e.cost, e.at, e.exp_expired);
+            }
+            for e in &t.policy_events {
+                println!("  pol at {} used {} max {} {:?}", e.at, e.snap.used, e.snap.max_cost, e.snap.key_costs);
+            }
+            for s in &t.snaps {
+                println!("  snap at {} q={} +{}ms entries {:?} policy {:?} buckets {:?} len {} workers {:?} metrics {:?}", s.at, s.quiescent, (s.now_ns - rt::world::E0_NS) / 1_000_000, s.entries.iter().map(|e| (e.index, e.value.seq, e.d_ns / 1_000_000)).collect::<Vec<_>>(), s.policy, s.buckets, s.len, s.workers, s.metrics.as_ref().map(|m| (m.hits, m.misses, m.keys_added, m.keys_evicted, m.cost_added, m.cost_evicted, m.sets_dropped, m.sets_rejected)));
+            }
+            for r in &t.evict_rounds {
+                println!("  round {:?}", r);
+            }
+        }
+        Err(e) => println!("  builder rejected: {}", e),
+    });
+    let out = rt::replay(rt::ExploreCfg { bound: v.bound, ..Default::default() }, v.choices.clone(), body);
+    for x in &out.violations {
+        println!("  engine: {} {}", x.kind, x.msg);
+    }
 }
